@@ -232,7 +232,8 @@ EXTRA_TEXT = {
     "C12": " Added: determine_intersect and the pair loop of determine_crosscut_abutting_relationships are regenerated; C12_generated_determine_intersect (= Rel.intersectOf, all cases) and "
            "C12_generated_rows (exactly one row per pair of sets that both contain traces, in combinations order, each from its own pair) hold for all inputs.",
     "C13": " Added: C13_underlap_attribute over the regenerated stateful validator (a passing call leaves the class attribute untouched; verdict and written string never depend on its old "
-           "value); S13's pool has a ninth frame (multi-part lines that form node defects once merged).",
+           "value); S13's pool has a ninth frame (multi-part lines that form node defects once merged). C13_generated_pass: the regenerated row / validator loops of "
+           "run_validation equal the model pass; stream S13-generated runs them (compiled, with the regenerated _validate inside, both passes) against the real run_validation with scripted validators.",
     "C14": " Added stream S14-slivers (corner slivers of 0.5-4 x snap: all four routes must agree).",
     "C16": " S16-validation now also runs user-supplied thresholds 0.1 and 0.001. C16_boundary_lines_transparent: the regenerated loops of determine_boundary_intersecting_lines give the same "
            "flags for any two candidate windows that contain every line within the threshold of a boundary (empty windows in any row position included); stream S16-multiarea runs "
